@@ -115,14 +115,14 @@ pub fn emit(seed: u64, n: usize, max_ops: u64) {
                        terms.push(format!("VChain2 [{}]", st.chain.curves.iter().map(|c| format!("Curve2 {} {} {} {} {}%Z", t2(c.start), t2(c.control1), t2(c.control2), t2(c.end), c.segments)).collect::<Vec<_>>().join("; "))); }
             }
         }
-        let run_prefix = |k: usize| -> Option<Scad> { let mut v = Viewer::new(pr, er, seg); for op in ops.iter().take(k) { op(&mut v); } catch(std::panic::AssertUnwindSafe(move || v.into_scad())) };
+        let run_prefix = |k: usize| -> Option<Scad> { catch(std::panic::AssertUnwindSafe(|| { let mut v = Viewer::new(pr, er, seg); for op in ops.iter().take(k) { op(&mut v); } v.into_scad() })) };
         // oracle on the implementation itself: the scene after k calls consists of the parts of the scene after k-1 calls, in order, plus new ones;
         // the part added by an edge call is one group with one cylinder per edge running from the start to the end of the edge
         let mut prev: Vec<String> = Vec::new();
         let mut trig_keep: Vec<String> = Vec::new();
         for k in 1..=ops.len() {
             match run_prefix(k) {
-                None => { println!("@@ORACLE@@ scene_after_call_is_a_tree call {} of {}: into_scad panics", k, ops.len()); break; }
+                None => { println!("@@ORACLE@@ scene_after_call_is_a_tree call {} of {}: the call or into_scad panics", k, ops.len()); break; }
                 Some(t) => {
                     let parts = scene_parts(&t);
                     let ps: Vec<String> = parts.iter().map(|p| format!("{}", p)).collect();
